@@ -24,22 +24,22 @@ CHECKS = {
    ref="4 (C04), 3.8"),
  'C05': dict(
    technique="TLA+ lattice model of T <-> (k,t) <-> arc-length fractions and of continuous subpaths (TParam) model-checked with TLC; every (lengths, joints, T) case replayed on real Paths",
-   text="TLC checks RoundTripT, InOccupancy, TZeroOnlyAtStart, Monotone (walking T along the grid), RunsOK and ContIffOneRun for all paths of <= 3 (quick) / 4 (thorough) segments with lengths from a set containing 0 and 64; every case is realised as a real Path (uniform-speed Line/Quadratic/Cubic chains; mixed L/Q/C/A geometry for every joint pattern incl. the closing joint) and T2t, t2T, point, start/end, iscontinuous, isclosed, continuous_subpaths are compared with the model - exactly when all lengths are powers of two.",
+   text="TLC checks RoundTripT, InOccupancy, TZeroOnlyAtStart, Monotone (walking T along the grid), RunsOK and ContIffOneRun for all paths of <= 3 (quick) / 4 (thorough) segments with lengths from a set containing 0 and 64; every case is realised as a real Path (uniform-speed Line/Quadratic/Cubic chains; mixed L/Q/C/A geometry for every joint pattern incl. the closing joint) and T2t, t2T, point, start/end, iscontinuous, isclosed, continuous_subpaths are compared with the model - exactly when all lengths are powers of two. Since round 5 a share of the cases is repeated in small / large units and at offsets of 1e6 .. 3e7 (the base case's answer, mapped: the identities behind that oracle are proved for all integers by Apalache, spec/apalache/MC_Placement.tla).",
    note="Trusted: TLC; exact comparison only on dyadic chains, otherwise 1e-9/1e-12 tolerances (either side of a boundary accepted). Effects one ulp below T=1 (a rounding effect outside the lattice) are not decided.",
    ref="4 (C05), 3.5"),
  'C06': dict(
    technique="TLA+ exact model of the total variation of Bezier coordinate polynomials on dyadic sub-intervals (BezierBox.tla) and circular lattice arcs model-checked with TLC; the exact lengths replayed through length() with scipy quadrature and with the pure-Python fallback",
-   text="TLC checks TVAdditive, TVMonotone (along the walk), TVAtLeastChord and TVAtMostPolygon for every small-integer coordinate vector with rational critical points; the corresponding collinear quadratics / cubics along the direction (3,4) - monotone, fold-back, repeated control points, at scales 1e-3, 1, 1e4 - must give length(t0,t1) = 5 x TV on every dyadic sub-interval (1e-6 relative; 5e-3 where the speed vanishes inside, as the property allows), finite and non-negative; lines exact; circular lattice arcs r|delta| incl. additivity; generic lattice curves inside the rigorous [chords, control polygon] bracket of a depth-7 subdivision and additive; Path.length = sum of segments; all of it with _quad_available on and off.",
+   text="TLC checks TVAdditive, TVMonotone (along the walk), TVAtLeastChord and TVAtMostPolygon for every small-integer coordinate vector with rational critical points; the corresponding collinear quadratics / cubics along the direction (3,4) - monotone, fold-back, repeated control points, at scales 1e-3, 1, 1e4 - must give length(t0,t1) = 5 x TV on every dyadic sub-interval (1e-6 relative; 5e-3 where the speed vanishes inside, as the property allows), finite and non-negative; lines exact; circular lattice arcs r|delta| incl. additivity; generic lattice curves inside the rigorous [chords, control polygon] bracket of a depth-7 subdivision and additive; Path.length = sum of segments; all of it with _quad_available on and off. Since round 5 a share of the cases is repeated in small / large units and at offsets of 1e6 .. 3e7 (the base case's answer, mapped: the identities behind that oracle are proved for all integers by Apalache, spec/apalache/MC_Placement.tla).",
    note="Trusted: TLC. NOT decided: the 1e-6 accuracy of length() for generic non-collinear curves and elliptical arcs (numeric accuracy proper; only the coarse rigorous bracket is checked).",
    ref="4 (C06), 3.6"),
  'C07': dict(
    technique="TLA+ state machine of the bisection loop of inv_arclength (Bisect.tla) model-checked with TLC over all monotone length tables; every run of the real ilength recorded probe by probe and validated by Bisect_Trace.tla; exact inverses on constant-speed curves",
    text="TLC checks Terminates, FewSteps, Bracket, Post, Ends, Monotone and RunAgrees for every non-decreasing table on a 2^P grid, every target and tolerances below the table's resolution (the unreachable-tolerance regime); ~350 real runs (8 segment shapes and 3 paths x scales 1e-3..1e6 x 9 targets incl. 0, L and near-ends, scipy and no-scipy) are recorded by wrapping length() and must be accepted by the trace spec (each probe = midpoint of the dyadic bracket, or the float-resolution stall followed by the return); results are compared with s/L on constant-speed curves, checked for monotonicity, the post-condition and ValueError outside [0,L].",
-   note="Trusted: TLC; the recorder (harness-side wrapper of length(), no source hook). Post-condition slack max(s_tol, 1e-11 L). Without scipy only scales <= 1 (the fallback integrator needs seconds per call at 1e6).",
+   note="Trusted: TLC; the recorder (harness-side wrapper of length(), no source hook). Post-condition slack max(s_tol, 1e-12 + 16 ulp(L)). Without scipy only scales <= 1 (the fallback integrator needs seconds per call at 1e6).",
    ref="4 (C07), 3.10"),
  'C08': dict(
    technique="TLA+ exact model of the extremes of Bezier coordinate polynomials with rational critical points (BezierBox.tla) and of the critical angles of lattice arcs (ArcLattice.tla) model-checked with TLC; exact boxes replayed through bbox()",
-   text="TLC checks WitnessInside, Attained, EndsInside and DerivZero for all ~1500 coordinate vectors over -3..3 whose critical points are rational (incl. degenerate degree, monotone, double roots, roots outside (0,1)) and the sweep membership of critical lattice angles; pairs of vectors form 2-D curves whose bbox() must equal the exact rational extremes (1e-12; also scaled 1e-3 with an offset and 2^20), generic lattice curves and off-lattice arcs are checked with 64/256 witnesses (containment and tightness up to the witness spacing), lattice circles / axis-aligned ellipses against the hull of end points and critical-angle points with 0-4 extremes crossed, and Path.bbox against the union of its segments' boxes.",
+   text="TLC checks WitnessInside, Attained, EndsInside and DerivZero for all ~1500 coordinate vectors over -3..3 whose critical points are rational (incl. degenerate degree, monotone, double roots, roots outside (0,1)) and the sweep membership of critical lattice angles; pairs of vectors form 2-D curves whose bbox() must equal the exact rational extremes (1e-12; also scaled 1e-3 with an offset and 2^20), generic lattice curves and off-lattice arcs are checked with 64/256 witnesses (containment and tightness up to the witness spacing), lattice circles / axis-aligned ellipses against the hull of end points and critical-angle points with 0-4 extremes crossed, and Path.bbox against the union of its segments' boxes. Since round 5 a share of the cases is repeated in small / large units and at offsets of 1e6 .. 3e7 (the base case's answer, mapped: the identities behind that oracle are proved for all integers by Apalache, spec/apalache/MC_Placement.tla).",
    note="Trusted: TLC; Fraction -> float conversion. Tightness of generic curves is only bounded by the witness spacing; arcs with generic rotation and unequal radii: witnesses only.",
    ref="4 (C08), 3.6, 3.8"),
  'C09': dict(
@@ -54,12 +54,12 @@ CHECKS = {
    ref="4 (C10), 3.9"),
  'C11': dict(
    technique="TLA+ exact crossing oracle on the integer lattice (Crossings.tla: pairs constructed to meet at known rational parameters, provably disjoint pairs) model-checked with TLC; every pair replayed through intersect in both operand orders",
-   text="TLC checks MeetExactly, Monotone, TransversalOK (the constructed crossing exists, is unique and transversal) and Separated for all pairs of Line/Quadratic/Cubic control polygons of the families; for a sample of them (all nine type pairs, parameters k/3 and the dyadic k/2, gaps of 1-2 lattice units for the disjoint ones) every returned pair must be in [0,1]^2, its two points must coincide, it must be the known crossing (nothing at all for disjoint pairs), and swapping the operands must give the same crossing points; circle-lattice families for Arc-Line, Arc-Quadratic, Arc-Cubic and circular Arc-Arc; Path.intersect: the four points coincide and the segments are members.",
+   text="TLC checks MeetExactly, Monotone, TransversalOK (the constructed crossing exists, is unique and transversal) and Separated for all pairs of Line/Quadratic/Cubic control polygons of the families; for a sample of them (all nine type pairs, parameters k/3 and the dyadic k/2, gaps of 1-2 lattice units for the disjoint ones) every returned pair must be in [0,1]^2, its two points must coincide, it must be the known crossing (nothing at all for disjoint pairs), and swapping the operands must give the same crossing points; circle-lattice families for Arc-Line, Arc-Quadratic, Arc-Cubic and circular Arc-Arc; Path.intersect: the four points coincide and the segments are members. Since round 5 a share of the cases is repeated in small / large units and at offsets of 1e6 .. 3e7 (the base case's answer, mapped: the identities behind that oracle are proved for all integers by Apalache, spec/apalache/MC_Placement.tla).",
    note="Trusted: TLC; point evaluation of the library for the coincidence test. Pairs off the lattice are not decided; general (rotated / elliptical) arc-arc pairs may raise, as documented.",
    ref="4 (C11), 3.11"),
  'C12': dict(
    technique="TLA+ exact crossing oracle (Crossings.tla: constructed transversal crossings, exact crossing counts by isolated sign changes) model-checked with TLC; every constructed crossing must be found, once, by intersect / Path.intersect; TLA+ state machine of the subdivision loop of bezier_intersections (Subdiv.tla) model-checked with TLC and compared visit by visit with the real loop (behaviour conformance)",
-   text="For the constructed pairs of Crossings.tla (tangents >= 6 degrees apart, parameters strictly inside (0,1), unique crossing proved in the model) the crossing must be reported within 1e-4 of the true parameters exactly once, in both operand orders; pairs involving a Line must report exactly one pair; a long line against every lattice quadratic in general position must report exactly the model's number of crossings (0, 1 or 2); circle-lattice arc families with 1-2 known crossings; two path families whose crossings lie strictly inside segments; generic lattice Bezier pairs must not report a crossing twice; the count family spelled with Beziers only (degree-elevated quadratic x straight quadratic, turned by 3+4j).  Subdiv.tla: the design variant satisfies NoLoss / Once / NoGhostParallel / Sound for all pairs of straight lattice segments, the transcription of the code violates NoLoss (the open findings at model level), and every behaviour of the transcription (pairs visited per level in order, reports, the maximum-iterations failure) equals the recorded behaviour of the real function on straight lattice quadratics (exact dyadic arithmetic).",
+   text="For the constructed pairs of Crossings.tla (tangents >= 6 degrees apart, parameters strictly inside (0,1), unique crossing proved in the model) the crossing must be reported within 1e-4 of the true parameters exactly once, in both operand orders; pairs involving a Line must report exactly one pair; a long line against every lattice quadratic in general position must report exactly the model's number of crossings (0, 1 or 2); circle-lattice arc families with 1-2 known crossings; two path families whose crossings lie strictly inside segments; generic lattice Bezier pairs must not report a crossing twice; the count family spelled with Beziers only (degree-elevated quadratic x straight quadratic, turned by 3+4j).  Subdiv.tla: the design variant satisfies NoLoss / Once / NoGhostParallel / Sound for all pairs of straight lattice segments, the transcription of the code violates NoLoss (the open findings at model level), and every behaviour of the transcription (pairs visited per level in order, reports, the maximum-iterations failure) equals the recorded behaviour of the real function on straight lattice quadratics (exact dyadic arithmetic). Since round 5 a share of the cases is repeated in small / large units and at offsets of 1e6 .. 3e7 (the base case's answer, mapped: the identities behind that oracle are proved for all integers by Apalache, spec/apalache/MC_Placement.tla).",
    note="Trusted: TLC. Open findings (printed as KNOWN-FINDING): Bezier-Bezier crossings at dyadic parameters of both curves are lost; crossings of an axis-parallel straight Bezier are lost; generic Bezier-Bezier crossings can be reported several times.",
    ref="4 (C12), 3.11"),
  'C13': dict(
